@@ -319,23 +319,28 @@ PROPERTIES = {
     "C20": {
         "functions": ["opfython.math.general.confusion_matrix", "opfython.math.general.opf_accuracy",
                       "opfython.math.general.opf_accuracy_per_label", "opfython.math.general.purity", "static:normalize"],
-        "lemmas": ["cnt_bounds", "err_bounds"],
+        "lemmas": ["cnt_bounds", "err_bounds", "rsum_bounds", "rsum_le", "colcnt_zero", "colcnt_step", "colcnt_total",
+                   "pair_bounds"],
         "files": ["opfython/math/general.py"],
         "bounded": "bounded.general",
-        "level": "other",
+        "level": "proof",
         "explanation": "PROVED (z3, all vector lengths, all K >= 2 for opf_accuracy / all K >= 1 otherwise): confusion_matrix "
                        "counts every (true, predicted) pair exactly once (entries = recursive pair counter); opf_accuracy = "
                        "1 - np.sum(e)/(2K) with e[c] = FP_c/(N - N_c) + FN_c/N_c, lies in [0, 1], and equals 1 exactly when "
-                       "every prediction is correct (counting lemmas by induction on the prefix; divisions shown defined); "
+                       "every prediction is correct (counting lemmas by induction on the prefix; divisions shown defined; the "
+                       "bounds and the zero test of the sum by lemma rsum_bounds, induction on the length); "
                        "opf_accuracy_per_label[c] = 1 - FN_c/N_c (recall); purity = np.sum(column maxima of the confusion "
-                       "matrix)/N; normalize has the column-wise standard-score shape (static obligation under numpy's "
-                       "broadcasting contract). ASSUMED: the external contracts of np.max, np.bincount (+ its bins add up to "
-                       "the number of items), np.unique(return_counts) on label sets 0..K-1, np.nansum(axis=1) without NaN, "
-                       "np.sum (bounds preserved; a sum of non-negative terms is 0 iff all are 0). BOUNDED ONLY: K = 1 for "
-                       "opf_accuracy (0/0 -> NaN -> nansum is outside the real-number model), purity in (0, 1] and purity = 1 "
-                       "iff every predicted group is single-class, numeric normalize values.",
+                       "matrix)/N lies in (0, 1] and equals 1 exactly when every predicted group contains a single true class "
+                       "(lemmas: pair counter <= group size with equality iff the group is pure, group sizes add up to N by a "
+                       "double induction, sums are monotone with equality iff termwise equality); normalize has the "
+                       "column-wise standard-score shape (static obligation under numpy's broadcasting contract). ASSUMED: "
+                       "the external contracts of np.max, np.bincount (+ its bins add up to the number of items), "
+                       "np.unique(return_counts) on label sets 0..K-1, np.nansum(axis=1) without NaN, np.sum(v) = the real sum "
+                       "RSUM(v, len v) (RSUM is DEFINED by recursion; nothing else is assumed about it). BOUNDED ONLY: K = 1 "
+                       "for opf_accuracy (0/0 -> NaN -> nansum is outside the real-number model), numeric normalize values.",
         "trusted": COMMON_TRUST[:3] + ["assumed numpy contracts (specs/general.py): np.max, np.bincount, np.unique, np.nansum, "
-                                       "np.sum, elementwise arithmetic and in-place column division of 2-D arrays"],
+                                       "np.sum == mathematical sum, elementwise arithmetic and in-place column division of 2-D arrays",
+                                       "floating-point rounding is outside the statement (reals)"],
     },
     "C17": {
         "functions": ["opfython.core.subgraph.Subgraph.mark_nodes", SUP + "predict", SUP + "prune", SUP + "fit"],
